@@ -183,4 +183,18 @@ int ut_accept(int sockfd, struct sockaddr *addr, socklen_t *addrlen, unsigned in
     return rc;
 }
 
+#ifdef XB_STRLEN_GHOST
+/* TRUSTED(libc) strlen(3), the textbook loop (closed by pre-unwinding), result recorded */
+size_t xb_strlen_ret;
+#undef strlen
+size_t xb_strlen(const char *s)
+{
+    size_t n = 0;
+    while (s[n] != 0)
+        n++;
+    xb_strlen_ret = n;
+    return n;
+}
+#endif
+
 #endif
